@@ -3,7 +3,7 @@
    native types; Z, positive, nat stay extracted datatypes; no Extract Constant. *)
 From Coq Require Import ZArith List.
 From Coq Require Extraction ExtrOcamlBasic.
-From MV Require Import Base.Res Model.EventTree Model.TreeOps Model.Num Model.Envelope.
+From MV Require Import Base.Res Model.EventTree Model.TreeOps Model.Num Model.Envelope Model.Convert.
 Extraction Language OCaml.
 
 Extraction "model.ml"
@@ -11,4 +11,5 @@ Extraction "model.ml"
   cut_out cut_off split_at split_child_at squash_in slide_in extend_until extend_until_default
   sequentialize concatenate seq_add get_by_tag set_by_tag del_by_tag remove_by tie_by lslice with_children children
   value_at curve_shape_at point_at points_in_range integrate average is_static sample_at env_extend_until
-  env_cut_out env_cut_off env_split_at of_points to_points pdur pstarts.
+  env_cut_out env_cut_off env_split_at of_points to_points pdur pstarts
+  seconds_env convert convert_history metrize.
